@@ -326,7 +326,7 @@ fn from_owner(d: &mut Driver, ch: &mut dyn Chooser, id: u32) {
 
 // ------------------------------------------------------------------ start states
 
-pub const N_STARTS: usize = 16;
+pub const N_STARTS: usize = 17;
 
 /// Put the pool into one of the named start states (for bounded-exhaustive enumeration).
 pub fn start_state(d: &mut Driver, which: usize) {
@@ -458,6 +458,20 @@ pub fn start_state(d: &mut Driver, which: usize) {
             let v: Vec<u8> = head.into();
             d.add(Val::V(v), m[..4].to_vec(), Origin::Heap);
             d.add(Val::B(bm.freeze()), m[4..].to_vec(), Origin::Heap);
+        }
+        15 => {
+            d.log("start two full never-split BytesMut of equal size from consecutive allocations".into());
+            // both in the inline-Vec form with identical `data` words (offset 0, same capacity class): only the
+            // representation test keeps unsplit from treating them as halves of one buffer when they are adjacent
+            let id2 = d.fresh_id();
+            let m2 = gen_bytes(id2, n);
+            let m1 = m[..].to_vec();
+            let mut a = BytesMut::with_capacity(n);
+            let mut b = BytesMut::with_capacity(n);
+            a.extend_from_slice(&m1);
+            b.extend_from_slice(&m2);
+            d.add(Val::M(a), m1, Origin::Heap);
+            d.add(Val::M(b), m2, Origin::Heap);
         }
         _ => {
             d.log("start BytesMut exact (len==cap) + empty sibling".into());
